@@ -17,6 +17,9 @@ SPEC = {
         "1": "bo.ProcessWhitespace differs from the model (texts or returned followingCollapsibleSpace)",
         "3": "a paragraph's line boxes do not carry its text exactly once and in order (character lost, duplicated, reordered or invented; collapsible space doubled or dropped inside a line; preserved white space changed)",
         "4": "in-flow paragraphs out of document order or split",
+        "8": "a collapsible space vanished inside a line (everything else in the paragraph matches)",
+        "9": "a preserved line feed / <br> did not break the line (everything else matches)",
+        "7": "an unproved statement of Properties/C02.v (idempotence with pre-line, pre-line specification) fails on a generated text",
         "5": "content units of a paginated flow not conserved",
         "6": "text boxes of a page and DrawText calls do not match one to one",
     },
